@@ -142,13 +142,21 @@ def entry_points(d, indent, workdir, with_doctrans):
             return eps
         for fmt in ("rest", "google", "numpydoc"):
             for ann in (True, False):
-                def dt(fmt=fmt, ann=ann):
-                    p = os.path.join(workdir, "m_{}_{}.py".format(fmt, ann))
-                    with open(p, "w") as f:
-                        f.write(src)
-                    for _ in range(3):
+                # the command applied three times to its own output; every round is one monitored call whose bound is computed from
+                # the file AS THAT ROUND FINDS IT (a malformed docstring may grow from round to round: that is drift, not a spin)
+                for rnd_no in (1, 2, 3):
+                    def dt(fmt=fmt, ann=ann, rnd_no=rnd_no):
+                        p = os.path.join(workdir, "m_{}_{}.py".format(fmt, ann))
+                        if rnd_no == 1:
+                            with open(p, "w") as f:
+                                f.write(src)
                         doctrans(filename=p, docstring_format=fmt, type_annotations=ann, no_word_wrap=None)
-                eps.append(("doctrans x3({},{})".format(fmt, ann), dt))
+
+                    def size_of(fmt=fmt, ann=ann, rnd_no=rnd_no):
+                        p = os.path.join(workdir, "m_{}_{}.py".format(fmt, ann))
+                        return (len(src) if rnd_no == 1 or not os.path.exists(p) else os.path.getsize(p)) + 64
+                    dt.size_of = size_of
+                    eps.append(("doctrans round {}({},{})".format(rnd_no, fmt, ann), dt))
     return eps
 
 
@@ -157,7 +165,7 @@ def run_case(case, workdir, with_doctrans):
     out = []
     n = len(text) + 64
     for name, thunk in entry_points(text, indent, workdir, with_doctrans):
-        size = n * (6 if name.startswith("doctrans") else 1)
+        size = thunk.size_of() if hasattr(thunk, "size_of") else n
         done, iters, err = monitored(thunk, size)
         out.append({"ep": name, "n": size, "iters": iters, "done": done, "err": err})
     return out
